@@ -459,6 +459,24 @@ example : MemRel ⟨[], []⟩ [] := ⟨rfl, fun _ => rfl, trivial⟩
 example : ((((⟨[], []⟩ : MemStore).save 1000 [1] 1010 [7]).save 1001 [2] 1005 [8]).save 1002 [3] 1100 [9]).save 1050 [3] 1200 [9] =
     ⟨[([3], ⟨1200, [9]⟩)], [(1200, [3])]⟩ := by decide +kernel
 
+/-- **`transmit` re-sends after a reconnect.**  If the first exchange fails (the connection to the session server was
+dropped), the reconnect succeeds and the re-sent exchange is answered, the caller gets that answer — a dropped connection is
+transparent; and `transmit` never returns normally without an answer of the server (it answers or throws).  (With
+`done=true` behind the try/catch the regenerated `Gen.txDoneAfterCatch` makes both statements false.) -/
+theorem transmit_resends_after_reconnect {R : Type} (attempt : Nat → Option R) (reconnectOk : Bool) :
+    (∀ r, attempt 0 = some r → transmit attempt reconnectOk = .answered r) ∧
+    (∀ r, attempt 0 = none → reconnectOk = true → attempt 1 = some r → transmit attempt reconnectOk = .answered r) ∧
+    transmit attempt reconnectOk ≠ .noAnswer := by
+  have h1 : Gen.txDoneInTry = true := rfl
+  have h2 : Gen.txDoneAfterCatch = false := rfl
+  refine ⟨?_, ?_, ?_⟩
+  · intro r h; simp [transmit, transmitLoop, h, h1]
+  · intro r h0 hr h1'; simp [transmit, transmitLoop, h0, hr, h1', h1, h2]
+  · simp only [transmit, transmitLoop, h1, h2]
+    cases attempt 0 <;> cases reconnectOk <;> cases attempt 1 <;> simp
+
+example : transmit (fun i => if i = 0 then none else some 7) true = .answered 7 := by decide
+
 /-- **The 10 % renewal window** as the source has it (`delta < timeout_val_ * 0.1` with
 `delta = now + timeout_val_ - timeout_in_`): an unchanged renew/browser session is not rewritten while fewer
 than a tenth of its period has passed since `timeout_in_ - timeout_val_`, the instant of the last write. -/
